@@ -131,6 +131,11 @@ func runMirror(events []string, props []string, seed int, args map[string]string
 		s.step = i
 		gFrom, sFrom := len(s.gLog), len(s.sLog)
 		a := s.apply(ev)
+		if !s.st.f.frozen {
+			// The event's asynchronous consequences (the state machine's reaction, view shifts) write too: a crash point
+			// inside them stops the process here, not one event later with the stores failing in between.
+			s.drain(false)
+		}
 		crashedHere := s.st.f.frozen
 		if s.st.f.frozen {
 			// The process stopped in the middle of this event: nothing further happens until it is restarted.
